@@ -438,7 +438,7 @@ class Engine:
             return ("fnitem", c["fn"], self.subst_gargs(c.get("args", ()), fr.genv))
         if "item" in c:
             if "promoted" in c:
-                return ("promoted", c["item"], c["promoted"])
+                return self.eval_promoted(fr, c["item"], c["promoted"])
             p = c["item_path"]
             rec = self.prog.consts.get(p)
             if rec is not None and "int" in rec:
@@ -469,6 +469,27 @@ class Engine:
         if "bytes" in c:
             return ("bytes_const", c["bytes"])
         return ("const?", ty_str(c["ty"]))
+
+    def eval_promoted(self, fr, item, idx):
+        """Promoted constants (`&CONST`, `&[None; 5]`, ...) have their own little MIR bodies."""
+        owner = self.prog.bodies.get(item)
+        if owner is None or idx >= len(owner.promoted):
+            return ("promoted", item, idx)
+        key = (item, idx, tuple(sorted(fr.genv.items())))
+        pm = self.__dict__.setdefault("_promoted_memo", {})
+        if key in pm:
+            return pm[key]
+        pb = owner.promoted[idx]
+        st = State({}, 1)
+        cells = [next(self.ncell) for _ in pb.locals]
+        nf = Frame(pb, cells, fr.genv, fr.callpath, fr.depth + 1)
+        v = self.run_body(st, nf)
+        if v is not None and v[0] == "ref":
+            v = ("refv", self.read_loc(st, v[1], v[2]))
+        if v is None:
+            v = ("promoted", item, idx)
+        pm[key] = v
+        return v
 
     def operand(self, st, fr, o):
         k = o[0]
@@ -711,7 +732,7 @@ class Engine:
         if not gargs:
             return None
         self_ty = gargs[0]
-        if has_param(self_ty):
+        if strip_refs(self_ty)[0] in ("param", "alias", "other"):
             return None
         best = None
         for im in self.prog.impls:
@@ -831,8 +852,8 @@ class Engine:
         cache = getattr(body, "_loops", None) if hasattr(body, "_loops") else None
         key = "_loops_cache"
         lc = self.__dict__.setdefault(key, {})
-        if body.id in lc:
-            return lc[body.id]
+        if id(body) in lc:
+            return lc[id(body)]
         n = len(body.blocks)
         color = [0] * n
         back = []
@@ -868,7 +889,7 @@ class Engine:
                     continue
                 S.add(x)
                 work.extend(preds.get(x, []))
-        lc[body.id] = loops
+        lc[id(body)] = loops
         return loops
 
     def run_body(self, st, fr):
